@@ -264,6 +264,14 @@ func (g *Global) pkgByName(name string, from *types.Package) *types.Package {
 			cands = append(cands, p.Pkg)
 		}
 	}
+	// seen from a library package (spec files): the standard-library package of exactly that name wins
+	if from != nil && !g.inRepo(from) {
+		for _, c := range cands {
+			if c.Path() == name {
+				return c
+			}
+		}
+	}
 	// prefer in-repo packages
 	for _, c := range cands {
 		if g.inRepo(c) {
@@ -1070,9 +1078,14 @@ func (g *Global) targetsLocked(cg *callgraph.Graph, f *ssa.Function, res *writeS
 				}
 				if callee := ci.Common().StaticCallee(); callee != nil && !g.isPureLib(callee) {
 					if u := g.unitFor(callee); u == nil || (u.Trusted && u.ModInferred) {
-						if ts, ok := g.libSiteTargets(callee, ci.Common()); ok {
+						if ts, lk, ok := g.libSiteTargetsKeys(callee, ci.Common()); ok {
 							refined[ci] = true
 							out = append(out, ts...)
+							if res != nil {
+								for _, k := range lk {
+									res.keys[k] = true
+								}
+							}
 							if u != nil && res != nil {
 								g.unitModKeys(u, callee, res)
 							}
@@ -1111,8 +1124,30 @@ var leafLibTypes = map[string]bool{"strings.Builder": true, "bytes.Buffer": true
 // an interface argument of unknown dynamic type contributes the in-repo types implementing that interface.
 // ok=false when the site cannot be refined (then the signature-level rule applies).
 func (g *Global) libSiteTargets(callee *ssa.Function, c *ssa.CallCommon) (out []*ssa.Function, ok bool) {
+	out, _, ok = g.libSiteTargetsKeys(callee, c)
+	return
+}
+
+// leafGhostKeys: the specification state of a leaf library object (strings.Builder, bytes.Buffer, os.File, ...): a
+// library function that is handed such an object may change it (io.Copy into a Builder appends to its content).
+func (g *Global) leafGhostKeys(name string) []string {
+	var ks []string
+	for owner, m := range g.C.GhostFields {
+		if owner == name {
+			for _, gf := range m {
+				ks = append(ks, gf.key())
+			}
+		}
+	}
+	sort.Strings(ks)
+	return ks
+}
+
+// libSiteTargetsKeys is libSiteTargets plus the state keys the call may write directly: the ghost fields of the leaf
+// library objects among its arguments.
+func (g *Global) libSiteTargetsKeys(callee *ssa.Function, c *ssa.CallCommon) (out []*ssa.Function, keys []string, ok bool) {
 	if callee.Pkg == nil || g.inRepo(callee.Pkg.Pkg) || len(callee.Blocks) == 0 {
-		return nil, false
+		return nil, nil, false
 	}
 	addType := func(t types.Type, iface *types.Interface) {
 		nt := namedOf(t)
@@ -1143,7 +1178,7 @@ func (g *Global) libSiteTargets(callee *ssa.Function, c *ssa.CallCommon) (out []
 		case *types.Basic:
 		case *types.Slice:
 			if _, isB := u.Elem().Underlying().(*types.Basic); !isB {
-				return nil, false
+				return nil, nil, false
 			}
 		case *types.Signature:
 			if mc, isC := a.(*ssa.MakeClosure); isC {
@@ -1151,21 +1186,22 @@ func (g *Global) libSiteTargets(callee *ssa.Function, c *ssa.CallCommon) (out []
 			} else if fa, isF := a.(*ssa.Function); isF {
 				out = append(out, fa)
 			} else if cst, isK := a.(*ssa.Const); !isK || cst.Value != nil {
-				return nil, false
+				return nil, nil, false
 			}
 		case *types.Pointer:
 			nt := namedOf(a.Type())
 			if nt == nil || nt.Obj().Pkg() == nil {
-				return nil, false
+				return nil, nil, false
 			}
 			name := nt.Obj().Pkg().Path() + "." + nt.Obj().Name()
 			if g.inRepo(nt.Obj().Pkg()) {
 				addType(a.Type(), nil)
-				return nil, false // an in-repo object handed to a library: be conservative
+				return nil, nil, false // an in-repo object handed to a library: be conservative
 			}
 			if !leafLibTypes[name] {
-				return nil, false
+				return nil, nil, false
 			}
+			keys = append(keys, g.leafGhostKeys(name)...)
 		case *types.Interface:
 			v := a
 			for {
@@ -1190,6 +1226,7 @@ func (g *Global) libSiteTargets(callee *ssa.Function, c *ssa.CallCommon) (out []
 				nt := namedOf(ct)
 				if nt != nil && nt.Obj().Pkg() != nil && !g.inRepo(nt.Obj().Pkg()) {
 					if leafLibTypes[nt.Obj().Pkg().Path()+"."+nt.Obj().Name()] {
+						keys = append(keys, g.leafGhostKeys(nt.Obj().Pkg().Path()+"."+nt.Obj().Name())...)
 						continue
 					}
 					// a library wrapper of unknown content: like an unknown dynamic type of the static interface
@@ -1199,7 +1236,7 @@ func (g *Global) libSiteTargets(callee *ssa.Function, c *ssa.CallCommon) (out []
 				}
 			}
 			if u.NumMethods() == 0 {
-				return nil, false
+				return nil, nil, false
 			}
 			// a value produced by a library call can only be (or wrap) an in-repo value that reaches that package
 			var restrict map[*types.Named]bool
@@ -1223,10 +1260,10 @@ func (g *Global) libSiteTargets(callee *ssa.Function, c *ssa.CallCommon) (out []
 				}
 			}
 		default:
-			return nil, false
+			return nil, nil, false
 		}
 	}
-	return out, true
+	return out, keys, true
 }
 
 // typesReaching: the in-repo named types whose values can be held by objects of library package q: a value gets
@@ -1734,7 +1771,10 @@ func (g *Global) callWrites(fn *ssa.Function, c *ssa.CallCommon) (map[string]boo
 	}
 	if callee := c.StaticCallee(); callee != nil {
 		if u := g.unitFor(callee); (u == nil || (u.Trusted && u.ModInferred)) && !g.isPureLib(callee) {
-			if ts, ok := g.libSiteTargets(callee, c); ok {
+			if ts, lk, ok := g.libSiteTargetsKeys(callee, c); ok {
+				for _, k := range lk {
+					res[k] = true
+				}
 				if u != nil {
 					// trusted library contract with `modifies inferred, ...`: its listed items plus what this call site
 					// can reach through its arguments
